@@ -281,7 +281,7 @@ func cmdCheck(args []string) int {
 			}
 			// loop ordinal sanity
 			for _, cl := range fc.Clauses {
-				if (cl.Kind == "invariant" || cl.Kind == "decreases") && cl.Loop >= len(g.loops) {
+				if (cl.Kind == "invariant" || cl.Kind == "decreases" || cl.Kind == "onrepeat") && cl.Loop >= len(g.loops) {
 					g.errorf("%s: contract names loop %d but the function has %d loops", label, cl.Loop, len(g.loops))
 				}
 			}
